@@ -239,7 +239,11 @@ func TestC10(t *testing.T) {
 			na = 100 + rng.IntN(200)
 		}
 		for k := 0; k < na; k++ {
-			sc.Attempts = append(sc.Attempts, cGenAttempt(rng, false, rng.IntN(30) == 0 && na < 50, rng.IntN(30) == 0 && na < 50))
+			a := cGenAttempt(rng, false, rng.IntN(30) == 0 && na < 50, rng.IntN(30) == 0 && na < 50)
+			if a.Kind == "stream" && rng.IntN(6) == 0 {
+				a.ViaRedirect = true
+			}
+			sc.Attempts = append(sc.Attempts, a)
 		}
 		cRun(t, r, fw.Key("S", i), sc, "C10")
 		if i < 32 {
